@@ -30,6 +30,23 @@ META = {
 MODULE = "KafkaVerif.Props.C10"
 SCENARIOS = ["balancers", "writer", "codecs", "readerfront", "reader", "conn", "transport"]
 
+# exported methods reached by a driver operation besides the one it is named after
+OP_ALSO = {
+    "gzip.roundtrip": ["compress/gzip.Codec.NewReader", "compress/gzip.Codec.NewWriter", "compress/gzip.Codec.Name"],
+    "snappy.roundtrip": ["compress/snappy.Codec.NewReader", "compress/snappy.Codec.NewWriter", "compress/snappy.Codec.Name"],
+    "lz4.roundtrip": ["compress/lz4.Codec.NewReader", "compress/lz4.Codec.NewWriter", "compress/lz4.Codec.Name"],
+    "zstd.roundtrip": ["compress/zstd.Codec.NewReader", "compress/zstd.Codec.NewWriter", "compress/zstd.Codec.Name"],
+    "Batch.Offset": ["Batch.HighWaterMark", "Batch.Throttle", "Batch.Partition"],
+    "Conn.Broker": ["Conn.LocalAddr", "Conn.RemoteAddr"],
+    "Conn.Read": ["Conn.ReadBatch", "Conn.ReadBatchWith"],
+    "Conn.ReadMessage": ["Conn.ReadBatch", "Conn.ReadBatchWith"],
+    "Batch.ReadMessage": ["Conn.ReadBatch", "Conn.ReadBatchWith"],
+    "Conn.ReadOffsets": ["Conn.ReadFirstOffset", "Conn.ReadLastOffset"],
+    "Conn.WriteMessages": ["Conn.WriteCompressedMessages"],
+    "Client.Produce": ["Transport.RoundTrip"], "Client.Fetch": ["Transport.RoundTrip"], "Client.Metadata": ["Transport.RoundTrip"],
+    "Client.ListOffsets": ["Transport.RoundTrip"],
+}
+
 HDR = re.compile(r"^(Read|Write|Previous read|Previous write|Atomic read|Atomic write|Previous atomic read|Previous atomic write) at 0x[0-9a-f]+ by (?:goroutine \d+|main goroutine):")
 FRAME = re.compile(r"^\s+(\S+):(\d+)(?: \+0x[0-9a-f]+)?$")
 
@@ -91,7 +108,7 @@ def run(ctx):
         "calls through interfaces and function values, and pointers to fields handed elsewhere (e.g. &c.rbuf inside messageSetReader), are not followed by the extractor",
         "hand-offs listed in go/extract/access_annotations.json (closure_locks, call_acquires, tokens, ctor_funcs, atomic_types) hold as justified there; tokens stand for channel/Once/WaitGroup ordering",
         "Go memory model as abstracted in Model/Lockset.lean: program order, unlock→lock (RUnlock↛RLock), go statement; atomics are race free among themselves",
-        "race-detector validation covers only the schedules that occurred in the generated programs (quick: 7 scenarios × 8 rounds; thorough: × 60 rounds × 3 seeds × GOMAXPROCS 2/4/16)",
+        "race-detector validation covers only the schedules that occurred in the generated programs (quick: 7 scenarios × 8 rounds; thorough: × 250 rounds × 4 seeds, GOMAXPROCS 2/4/8/16)",
     ]
     broken = []
     # ---- 1. regenerate the table
@@ -121,9 +138,9 @@ def run(ctx):
         broken.append({"kind": "obligation", "name": "correspondence C10 could not be built (oracle / go build -race)", "detail": (olog + dlog)[-1500:]})
     else:
         jobs = []
-        rounds = 60 if thorough else 8
-        seeds = [ctx.seed] if not thorough else [ctx.seed, ctx.seed + 1000, ctx.seed + 2000]
-        procs = [None] if not thorough else ["2", "4", "16"]
+        rounds = 250 if thorough else 8
+        seeds = [ctx.seed] if not thorough else [ctx.seed, ctx.seed + 1000, ctx.seed + 2000, ctx.seed + 3000]
+        procs = [None] if not thorough else ["2", "4", "8", "16"]
         only = None
         if ctx.replay:
             rp = json.load(open(ctx.replay))
@@ -147,7 +164,7 @@ def run(ctx):
             except subprocess.TimeoutExpired as e:
                 return job, -9, (e.stdout or b"").decode() if isinstance(e.stdout, bytes) else (e.stdout or ""), "timeout"
 
-        with concurrent.futures.ThreadPoolExecutor(max_workers=4) as ex:
+        with concurrent.futures.ThreadPoolExecutor(max_workers=6 if thorough else 4) as ex:
             results = list(ex.map(one, jobs))
         methods = {}
         for (s, sd, n, gmp), rc, out, err in results:
@@ -185,6 +202,12 @@ def run(ctx):
                 seen.add(r["key"])
                 lines.append("%s\treported" % r["key"])
         ctx.coverage["methods_invoked"] = dict(sorted(methods.items()))
+        direct = {m.split("/")[0] for m in methods}
+        for m in list(direct):
+            direct |= set(OP_ALSO.get(m, []))
+        # methods reached indirectly by the scenarios (Writer→Client/Transport.RoundTrip, codecs through compress.Codec, Reader→Conn/Batch)
+        ctx.coverage["exported_methods_of_tracked_types"] = len(table.get("exported_methods") or [])
+        ctx.coverage["exported_methods_not_reached_by_driver_ops"] = sorted(set(table.get("exported_methods") or []) - direct)
     dis = ctx.correspond(lines, orc, "race detector reports ↔ Gen/Accesses.lean (lockset table)",
                          nontrivial=lambda op, impl: op.startswith("round ")) if orc and lines else []
     # ---- coverage
